@@ -167,7 +167,11 @@ func (x *Exec) callByKey(callee *types.Func, recv *Val, args []Val, e *ast.CallE
 	// interface method
 	if sig.Recv() != nil && types.IsInterface(sig.Recv().Type()) {
 		if x.eng.pures[key] {
-			return []Val{x.pureCall(key, sig, recv, args)}
+			v := x.pureCall(key, sig, recv, args)
+			// a pure method returns the same value at any time, so storage it
+			// returns existed when the function under verification was entered
+			st.assume(x.typeInv(v.T, v.Ty, x.entry0Alloc()))
+			return []Val{v}
 		}
 	}
 	fc := x.eng.contracts[x.cur().pkg.Types.Name()+"@"+key]
